@@ -16,6 +16,7 @@ MNext ==
      \/ (\E i \in Issue : tracker[i].exists) /\ RoundClean /\ Log(E("Round", 0, "", 0, "none"))
      \/ (\E i \in Issue : tracker[i].exists) /\ RoundFailedAt("issues", 1) /\ Log(E("Round", 0, "", 0, "issues"))
      \/ \E c \in {"notes", "labels", "states"}, i \in Issue : RoundFailedAt(c, i) /\ Log(E("Round", 0, "", 0, c \o ":" \o ToStr(i)))
+     \/ \E u \in Users : RoundFailedUser(u) /\ Log(E("Round", 0, "", 0, "user:" \o ToStr(u)))
 MSpec == MInit /\ [][MNext]_<<vars, hist>>
 Emit == Len(hist) >= Depth => PrintT(ToJson([steps |-> hist]))
 =============================================================================
